@@ -6,7 +6,7 @@ import random
 from PIL import Image
 
 MODES = ["1", "L", "LA", "P", "PA", "RGB", "RGBA", "CMYK", "HSV"]
-PATTERNS = ["uniform", "runs", "random", "alpha-steps", "two-tone", "single-px"]
+PATTERNS = ["uniform", "runs", "random", "alpha-steps", "two-tone", "single-px", "soft-edge", "soft-edge", "half-noise"]
 
 
 def random_image_spec(rng: random.Random, max_side: int = 24) -> dict:
@@ -39,6 +39,29 @@ def _rgba_pixels(d: dict):
     if pat == "alpha-steps":
         c = tuple(d["force_color"]) if d.get("force_color") else rng.choice(pal)
         return [c + (alphas[(i // max(1, rng.choice([1, 2, 3]))) % len(alphas)],) for i in range(n)]
+    if pat == "soft-edge":
+        # one pixel row varies in RGB while (nearly) transparent, the neighbouring row is a flat opaque colour
+        flat = rng.choice(pal) + (255,)
+        lowa = rng.choice([0, 1, 50, 50, 101, 101])
+        which = rng.randrange(2)
+        out = []
+        for y in range(h):
+            for x in range(w):
+                if y % 2 == which:
+                    out.append(tuple(rng.randrange(256) for _ in range(3)) + (lowa if rng.random() < 0.8 else 255,))
+                else:
+                    out.append(flat)
+        return out
+    if pat == "half-noise":
+        # flat (compressible) rows followed by noise (incompressible) rows, or the other way round
+        flat = rng.choice(pal) + (255,)
+        first_flat = rng.random() < 0.7
+        out = []
+        for y in range(h):
+            is_flat = (y < h // 2) == first_flat
+            for x in range(w):
+                out.append(flat if is_flat else tuple(rng.randrange(256) for _ in range(3)) + (255,))
+        return out
     if pat == "two-tone":
         a, b = rng.choice(pal), rng.choice(pal)
         return [(a if (i // w + i % w) % 2 else b) + (255,) for i in range(n)]
